@@ -123,5 +123,32 @@ PROPS['C05'] = edit_prop('Encoding again without edits gives the same bytes', ['
     'PARTIAL. Lean 4 theorem: when no re-indexing is pending the first encode returns the state unchanged, hence the second encode is identical (all injection / initialiser / export / data histories); '
     'the full statement is false of the code (known finding F4, counterexample decided in Lean and replayed on the crate); the oracle compares the bytes of two encodes on every fifth case.',
     'Lean 4 proof (fixpoint of encode under NoReindexPending) + decided counterexample + differential check of two encodes')
+PROPS['C05']['families'].append({'name': 'lower', 'quick_n': 1500, 'thorough_n': 100000})
+
+LOWER_RULE = "generated structured bodies (1-5 top-level statements, nesting <= 3: nop/const/call, block, loop, if/else, br, br_if, br_table, return, unreachable; functions with and without params/locals/results) x injection plans of 0-5 steps (mode at instruction + 1-2 probes, inject_at, empty alternate, empty block alternate, function entry/exit) through one of three API paths (module iterator, component iterator, function modifier); plan class 'plain' (before/after/alternate only) or 'special'; both encodes compared; distinct by case line; non-trivial when the plan is non-empty"
+LOWER_TRUST = COMMON_TRUST + [
+    'modelled, not verified: which wasmparser operators fall into which Kind (block / loop / if / else / end / branches / exit-like) is fixed by the token parser of the driver; wasm-encoder for the operators themselves',
+]
+def lower_prop(title, files, level_text, technique, extra_families=None):
+    return {
+        'title': title, 'props_files': files,
+        'families': [{'name': 'lower', 'quick_n': 2500, 'thorough_n': 200000}] + (extra_families or []),
+        'rule': LOWER_RULE, 'trusted': LOWER_TRUST, 'assumptions': ['function bodies are non-empty (end with `end`)'],
+        'design_ref': 'DESIGN.md section 6', 'level_text': level_text, 'technique': technique,
+    }
+PROPS['C15'] = lower_prop('Before/after/alternate injection is lowered exactly', ['Orca/Props/C15.lean'],
+    'Lean 4 theorems over the transcribed flag bookkeeping and emission loop: the encoded body is, instruction by instruction, before ++ (alternate | op) ++ after with only '
+    'before at the final end; the API appends each injected operator to exactly the addressed list; plain plans need no resolution; tied to the code by differential runs through '
+    'three API paths and an oracle that recomputes the specification from the plan alone.',
+    'Lean 4 proof + differential correspondence check')
+PROPS['C21'] = lower_prop('Block alternate replaces exactly the selected construct', ['Orca/Props/C21.lean'],
+    'Lean 4: the step at the selected instruction is proved for all bodies (replacement becomes the alternate, special lists discarded); the region behaviour (through the matching end, else keeps '
+    'its end, nested constructs) is decided in the kernel on concrete nested bodies and checked against an independent matching-end oracle on every generated single-alternate plan; the '
+    'general region theorem over the delete_block tracking is not proved yet (see DESIGN.md).',
+    'Lean 4 proof (local step) + kernel-decided instances + differential correspondence check')
+PROPS['C22'] = lower_prop('Special-mode injections are never silently lost', ['Orca/Props/C22.lean'],
+    'Lean 4 theorems: every injection path either marks the function for special resolution or rejects the call (inject, inject_at, function-level, empty block alt; non-applicable '
+    'opcodes rejected); the model of the resolution is compared with the code on every case and the oracle requires every accepted probe id in the output; one known finding (F15).',
+    'Lean 4 proof + differential correspondence check')
 
 ALL_IDS = ['C%02d' % i for i in range(1, 31)]
